@@ -207,6 +207,18 @@ func c11(r *mon.Run) {
 		o := map[string]interface{}{"p": xs[0], "q": xs[1], "r": xs[2]}
 		lateDocs = append(lateDocs, map[string]interface{}{"x": xs, "o": o, "y": []interface{}{mk(2), mk(4)}, "k": float64(7)})
 	}
+	for _, bad := range []int{0, 17, 39} {
+		// long arrays: the erroring element is far from the start (beyond any small-input fast path)
+		arr := make([]interface{}, 40)
+		for i := range arr {
+			var a interface{} = float64(i + 1)
+			if i == bad {
+				a = "s"
+			}
+			arr[i] = map[string]interface{}{"a": a, "k": float64(i%3 + 1)}
+		}
+		lateDocs = append(lateDocs, map[string]interface{}{"x": arr, "o": map[string]interface{}{"p": arr[0], "q": arr[17], "r": arr[39]}, "y": []interface{}{arr[:20], arr[20:]}, "k": float64(7)})
+	}
 	LD := len(lateDocs)
 	// the same documents with Go-typed slices ([]map[string]interface{}, [][]map[string]interface{}): the
 	// reflection twins of the projection loops must propagate the same errors
